@@ -472,12 +472,19 @@ func (u *Unit) useContract(st *State, fr *Frame, in *ssa.Call, fn *ssa.Function,
 	})
 	savedBase := u.ctxBase
 	u.ctxBase = base
+	// While the callee's postcondition is assumed, what lies behind a nil result
+	// pointer is left as it is (an unobservable unknown) instead of reading as
+	// zero: the clauses then constrain that unknown too, which is a
+	// conservative extension (zero is always a witness) and lets region facts
+	// such as fresh(r.f) be used before r != nil is known.
+	u.noNilMerge = true
 	for _, cl := range ct.Ensures {
 		cf := u.clauseFunc(fn, cl.Func)
 		t := u.evalPure(st, cf, all, nil).(*Term)
 		u.assume(t)
 	}
 	u.ctxBase = savedBase
+	u.noNilMerge = false
 	// vacuity guard: a contract that is true of the body cannot make a
 	// feasible path infeasible
 	if u.S.CheckSatT(u.Cfg.FeasMs) == "unsat" {
